@@ -673,6 +673,35 @@ def generate(tier, seed):
             c['chunk'] = None if rng.random() < 0.85 else _chunk_choice(rng, base)
             c['prog'] = prog
             cases.append(c)
+    # (i) sessions with several live tables derived from ONE lazily read parent (register 1): basic slices (views of the
+    #     parent's offset tables) with non-zero start, strided, reversed; an unmodified write of a derived table in the
+    #     middle; afterwards first-time field reads / tolist / write of the PARENT and of sibling and nested slices
+    slices = [['slice', 1, None, None], ['slice', 2, 4, None], ['slice', 1, None, 2], ['slice', None, None, -1],
+              ['slice', -2, None, None], ['slice', 3, 0, -1]]
+    for k, fmt in enumerate(FMT_ORDER):
+        nf = len(FORMATS[fmt]['fields'])
+        for equal in (True, False):
+            base = _ordered_file(fmt, equal)
+            for j, sp in enumerate(slices):
+                if tier == 'quick' and (j + k + equal) % 2:
+                    continue
+                other = slices[(j + 2) % len(slices)]
+                fs = list(range(nf))
+                rng.shuffle(fs)
+                progs = [
+                    [['sel', 0, 1, sp], ['write', 0]] + [['get', 1, f] for f in fs] + [['tolist', 1], ['write', 1]],
+                    [['get', 1, fs[0]], ['sel', 0, 1, sp], ['write', 0], ['get', 1, fs[-1]], ['sel', 0, 1, other], ['get', 0, fs[-1]],
+                     ['tolist', 0], ['write', 0], ['tolist', 1], ['write', 1]],
+                    [['sel', 0, 1, sp], ['get', 0, fs[0]], ['write', 0], ['tolist', 0], ['sel', 1, 1, ['slice', 1, None, None]],
+                     ['tolist', 1], ['write', 1]],
+                    [['sel', 0, 1, sp], ['sel', 0, 0, ['slice', 1, None, None]], ['write', 0], ['tolist', 1], ['get', 1, fs[0]],
+                     ['sel', 0, 1, ['mask', [True, False, True, True, False]]], ['tolist', 0], ['write', 0]],
+                ]
+                for prog in progs:
+                    c = dict(base)
+                    c['chunk'] = None
+                    c['prog'] = prog
+                    cases.append(c)
     # (f) gzip-compressed and CRLF inputs of the text formats (the reader's prepend mode / carriage-return handling)
     for i in range(120 if tier == 'quick' else 600):
         fmt = FMT_ORDER[i % len(FMT_ORDER)]
